@@ -18,11 +18,14 @@ BOUNDS = {'quick': '4 concrete instances (2-cell die with two soft modules; die 
 STUBS = ['GEKKO replaced by a recording object: every Var is a fresh real within its bounds; when solve() returns the variables hold an '
          'ARBITRARY point satisfying the bounds and the posted LINEAR equations; nonlinear equations (dispersion, mirrored offsets) are '
          'not assumed (a weakening; linearity is judged in the variables of the current optimisation model - values fixed by an earlier '
-         'optimisation are constants); Minimize ignored', 'plotting not reached (plotting_options=None)']
+         'optimisation are constants); Minimize ignored; every solve() may instead FAIL to converge (symbolic flag): it then raises if debug >= 1 '
+         '(GEKKO default) and otherwise returns silently with APPSTATUS = 0 and arbitrary values within the bounds',
+         'visualising mode: the drawing functions are no-ops and the solver-iteration budget of solve_and_extract_solution is 2 '
+         'instead of 100 (loop bound); otherwise plotting is not reached (plotting_options=None)']
 ASSUMPTIONS = ['the optimiser returns (its tolerance is not modelled: constraints hold exactly)', 'dies and netlists concrete']
 NOT_DECIDED = ['"within solver tolerance"', 'whether/when IPOPT returns', 'mirroring decisions of flippable modules beyond rigidity '
                '(the squared-offset equations are nonlinear and not assumed)']
-MUST_REACH = ['returned']
+MUST_REACH = ['returned', 'solver-failure-raised']
 
 
 def setup():
@@ -155,8 +158,19 @@ class FakeGEKKO:
 
     Obj = Minimize
 
-    def solve(self, disp=False, debug=0):
+    def solve(self, disp=True, debug=1):
+        """contract of GEKKO.solve: either the solver converges (the variables then satisfy the posted equations, APPSTATUS = 1) or it
+        does not (infeasible model, iteration limit ...): with debug >= 1 (GEKKO's default) that raises, with debug = 0 it returns
+        silently with APPSTATUS = 0 and the variables at the last iterate (arbitrary values within their bounds)"""
         I = FakeGEKKO.I
+        self.nsolve = getattr(self, 'nsolve', 0) + 1
+        if I.flag(f'g{self.id}.solver_fails{self.nsolve}'):
+            self.options.APPSTATUS = 0
+            I.reached('solver-failed')
+            if debug >= 1:
+                raise Exception('@error: Solution Not Found')
+            return
+        self.options.APPSTATUS = 1
         for c in self.eqs:
             if isinstance(c, bool):
                 # concrete replays: the replayed optimiser outcome must satisfy the (linear) equations this run posts, otherwise the
@@ -197,7 +211,9 @@ INST = {
 
 def cases(tier):
     cs = [dict(inst='soft2', max_iter=1), dict(inst='fixed', max_iter=1), dict(inst='fixed-overlap', max_iter=1), dict(inst='stacked', max_iter=1), dict(inst='stacked', max_iter=2),
-          dict(inst='hard', max_iter=1), dict(inst='hardflip', max_iter=1)]
+          dict(inst='hard', max_iter=1), dict(inst='hardflip', max_iter=1),
+          # the visualising mode (one solver call per solver iteration, debug=0), solver-iteration budget cut from 100 to 2
+          dict(inst='soft2', max_iter=1, visualize=True), dict(inst='fixed', max_iter=1, visualize=True)]
     if tier == 'thorough':
         cs += [dict(inst='soft2', max_iter=2), dict(inst='grid4', max_iter=1), dict(inst='blockage', max_iter=2), dict(inst='fixed', max_iter=2),
                dict(inst='fixed-overlap', max_iter=2)]
@@ -224,9 +240,20 @@ def body(I, case):
     OPT.GEKKO = FakeGEKKO  # the optimiser is an environment stub in both modes (replays pin its outcome to the model's values)
     FakeGEKKO.I = I
     FakeGEKKO.count = 0
+    po = None
+    saved_vis = (OPT.get_joint_floorplan_plot, OPT.do_plots, OPT.solve_and_extract_solution.__defaults__, OPT.__dict__.get('print'))
+    if case.get('visualize'):
+        class _Img:
+            def save(self, *a, **k):
+                pass
+        po = OPT.PlottingOptions(name='fv-unused', joint_plot=True, visualize=True)
+        OPT.get_joint_floorplan_plot = lambda *a, **k: _Img()   # drawing is outside the property (and needs no display)
+        OPT.do_plots = lambda *a, **k: None
+        OPT.print = lambda *a, **k: None
+        OPT.solve_and_extract_solution.__defaults__ = (2,) + tuple(saved_vis[2][1:])   # bound: 2 solver iterations instead of 100
     try:
         try:
-            out_die, al = OPT.glbfloor(die, threshold, alpha, max_iter=case['max_iter'])
+            out_die, al = OPT.glbfloor(die, threshold, alpha, max_iter=case['max_iter'], plotting_options=po)
         except ZeroDivisionError:
             I.discard('a module lost all its area in the filtered allocation (center/0): optimiser outcome outside the stub contract')
         except AssertionError as e:
@@ -234,8 +261,17 @@ def body(I, case):
             # filtered allocation unrepresentable (e.g. no cell above 1-threshold: empty allocation) makes it raise instead
             I.reached('raised-instead-of-returning')
             I.discard(f'glbfloor raised: {e}')
+        except Exception as e:
+            if 'olution' not in str(e) or 'ot ' not in str(e):   # "Solution Not Found" / "solution was not found"
+                raise
+            I.reached('solver-failure-raised')   # the property speaks about the runs in which global floorplanning returns
+            return
     finally:
         OPT.GEKKO = saved
+        OPT.get_joint_floorplan_plot, OPT.do_plots = saved_vis[0], saved_vis[1]
+        OPT.solve_and_extract_solution.__defaults__ = saved_vis[2]
+        if saved_vis[3] is None:
+            OPT.__dict__.pop('print', None)
     I.reached('returned')
     px, py = I.real('px', -1, 20), I.real('py', -1, 20)
     cells = al.allocations
